@@ -103,6 +103,34 @@ theorem faultSink_conforming (f : Fault) : Conforming (faultSink f) := by
             · intro _; rfl
           · simp
 
+/-- SPEC: fault points per `Write` *call* instead of per byte offset: the `i`-th call (0-based) of
+the destination fails whatever it is offered, even nothing — rejected whole, or with `short` after
+accepting half of it; with `sticky` every later call fails too, without it the failure is
+transient.  State: (calls seen, "a call has failed"). -/
+structure CallFault where
+  i : Nat
+  short : Bool
+  sticky : Bool
+  deriving Repr, DecidableEq
+
+def callSink (f : CallFault) : SinkM (Nat × Bool) where
+  step st _ p :=
+    if f.sticky && st.2 then ((st.1 + 1, true), ⟨0, true⟩)
+    else if st.1 = f.i then ((st.1 + 1, true), ⟨if f.short then p.length / 2 else 0, true⟩)
+    else ((st.1 + 1, st.2), ⟨p.length, false⟩)
+
+theorem callSink_conforming (f : CallFault) : Conforming (callSink f) := by
+  intro s len p
+  simp only [callSink]
+  split
+  · simp
+  · split
+    · refine ⟨?_, fun _ => rfl⟩
+      split
+      · exact Nat.div_le_self _ _
+      · exact Nat.zero_le _
+    · simp
+
 /-- states of the sink reachable by further `Write` calls -/
 inductive Reach {σ} (m : SinkM σ) : Sk σ → Sk σ → Prop where
   | refl (s) : Reach m s s
